@@ -46,13 +46,26 @@ func (p *Program) pushAllHelperG(fn *types.Func) (isHelper, skipsNil bool) {
 		iv := objOf(info, init.Lhs[0])
 		paramExpr := &ast.Ident{Name: ps[1].Name()}
 		info.Uses[paramExpr] = ps[1]
-		if iv == nil || !isCountedLoopOver(info, l, iv, paramExpr) {
+		shifted := iv != nil && isShiftedLoopOver(info, l, iv, paramExpr, 1)
+		if iv == nil || (!isCountedLoopOver(info, l, iv, paramExpr) && !shifted) {
 			return false, false
 		}
 		body = l.Body
 		elem = func(e ast.Expr) bool {
 			ix, ok := ast.Unparen(e).(*ast.IndexExpr)
-			return ok && objOf(info, ix.X) == ps[1] && objOf(info, ix.Index) == iv
+			if !ok || objOf(info, ix.X) != ps[1] {
+				return false
+			}
+			if shifted {
+				// nodes[i-1] with i running from len(nodes) down to 1 (or from 1 up to len(nodes))
+				b, isB := ast.Unparen(ix.Index).(*ast.BinaryExpr)
+				if !isB || b.Op != token.SUB || objOf(info, b.X) != iv {
+					return false
+				}
+				k, isC := constInt(info, b.Y)
+				return isC && k == 1
+			}
+			return objOf(info, ix.Index) == iv
 		}
 	case *ast.RangeStmt:
 		if objOf(info, l.X) != ps[1] {
@@ -122,6 +135,13 @@ func (p *Program) inFullIndexLoop(info *types.Info, e ast.Expr, stop ast.Node) b
 		return false
 	}
 	iobj := objOf(info, ix.Index)
+	shift := int64(0)
+	if b, isB := ast.Unparen(ix.Index).(*ast.BinaryExpr); isB && b.Op == token.SUB {
+		// s[i-k] inside a loop whose counter runs k ahead (for i := len(s); i > 0; i-- { ... s[i-1] })
+		if k, isC := constInt(info, b.Y); isC && k >= 0 {
+			iobj, shift = objOf(info, b.X), k
+		}
+	}
 	if iobj == nil {
 		return false
 	}
@@ -129,12 +149,19 @@ func (p *Program) inFullIndexLoop(info *types.Info, e ast.Expr, stop ast.Node) b
 	p.ancestors(e, stop, func(anc, child ast.Node) bool {
 		switch l := anc.(type) {
 		case *ast.ForStmt:
+			if shift != 0 {
+				if isShiftedLoopOver(info, l, iobj, ix.X, shift) {
+					okLoop = true
+					return false
+				}
+				return true
+			}
 			if isCountedLoopOver(info, l, iobj, ix.X) {
 				okLoop = true
 				return false
 			}
 		case *ast.RangeStmt:
-			if l.Key != nil && objOf(info, l.Key) == iobj && sameExpr(info, l.X, ix.X) {
+			if shift == 0 && l.Key != nil && objOf(info, l.Key) == iobj && sameExpr(info, l.X, ix.X) {
 				okLoop = true
 				return false
 			}
@@ -193,6 +220,55 @@ func isCountedLoopOver(info *types.Info, l *ast.ForStmt, i types.Object, s ast.E
 			if z, ok := constInt(info, cond.Y); ok && z == 0 && cond.Op == token.GEQ && post.Tok == token.DEC {
 				return true
 			}
+		}
+	}
+	return false
+}
+
+// isShiftedLoopOver: the loop runs i over k .. len(s)-1+k, up or down, so that s[i-k] visits every element once
+// (for i := len(s); i > 0; i-- / for i := 1; i <= len(s); i++ with k = 1).
+func isShiftedLoopOver(info *types.Info, l *ast.ForStmt, i types.Object, s ast.Expr, k int64) bool {
+	init, ok := l.Init.(*ast.AssignStmt)
+	if !ok || len(init.Lhs) != 1 || len(init.Rhs) != 1 || objOf(info, init.Lhs[0]) != i {
+		return false
+	}
+	cond, ok := l.Cond.(*ast.BinaryExpr)
+	if !ok || objOf(info, cond.X) != i {
+		return false
+	}
+	post, ok := l.Post.(*ast.IncDecStmt)
+	if !ok || objOf(info, post.X) != i || writesTo(info, l.Body, i) {
+		return false
+	}
+	// len(s) + d
+	lenPlus := func(e ast.Expr) (int64, bool) {
+		e = ast.Unparen(e)
+		d := int64(0)
+		if b, isB := e.(*ast.BinaryExpr); isB && (b.Op == token.ADD || b.Op == token.SUB) {
+			if c, isC := constInt(info, b.Y); isC {
+				if b.Op == token.SUB {
+					c = -c
+				}
+				d, e = c, ast.Unparen(b.X)
+			}
+		}
+		c, isCall := e.(*ast.CallExpr)
+		if !isCall || !IsBuiltinCall(info, c, "len") || len(c.Args) != 1 || !sameExpr(info, c.Args[0], s) {
+			return 0, false
+		}
+		return d, true
+	}
+	// up: i := k; i < len(s)+k (or i <= len(s)+k-1); i++
+	if v, isC := constInt(info, init.Rhs[0]); isC && v == k && post.Tok == token.INC {
+		if d, isL := lenPlus(cond.Y); isL {
+			return (cond.Op == token.LSS && d == k) || (cond.Op == token.LEQ && d == k-1)
+		}
+		return false
+	}
+	// down: i := len(s)-1+k; i >= k (or i > k-1); i--
+	if d, isL := lenPlus(init.Rhs[0]); isL && d == k-1 && post.Tok == token.DEC {
+		if z, isC := constInt(info, cond.Y); isC {
+			return (cond.Op == token.GEQ && z == k) || (cond.Op == token.GTR && z == k-1)
 		}
 	}
 	return false
@@ -295,23 +371,62 @@ func (p *Program) optionalNodeFields() map[string]string {
 					}
 				}
 			}
+			// a literal that a constructor hands back (`return &T{...}`): the variables its callers keep it in
+			type held struct {
+				holder types.Object
+				body   ast.Node
+				after  token.Pos
+			}
+			var helds []held
+			if holder != nil {
+				helds = append(helds, held{holder, fd.Body, cl.Pos()})
+			} else if _, isRet := par.(*ast.ReturnStmt); isRet {
+				self := FuncObj(p.Parser, fd)
+				complete := self != nil
+				for _, cfd := range AllFuncs(p.Parser) {
+					ast.Inspect(cfd.Body, func(m ast.Node) bool {
+						call, isCall := m.(*ast.CallExpr)
+						if !isCall || Callee(info, call) != self {
+							return true
+						}
+						as, isAs := p.Parent(call).(*ast.AssignStmt)
+						if !isAs || len(as.Lhs) != 1 || len(as.Rhs) != 1 {
+							complete = false
+							return true
+						}
+						if o := objOf(info, as.Lhs[0]); o != nil {
+							helds = append(helds, held{o, cfd.Body, call.Pos()})
+						} else {
+							complete = false
+						}
+						return true
+					})
+				}
+				if !complete {
+					helds = nil
+				}
+			}
 			for i := 0; i < st.NumFields(); i++ {
 				f := st.Field(i)
 				if set[f] || !isNodeRef(f.Type()) {
 					continue
 				}
-				stored := false
-				if holder != nil {
-					ast.Inspect(fd.Body, func(m ast.Node) bool {
-						if as, ok := m.(*ast.AssignStmt); ok && as.Pos() > cl.Pos() {
+				stored := len(helds) > 0
+				for _, h := range helds {
+					one := false
+					ast.Inspect(h.body, func(m ast.Node) bool {
+						if as, ok := m.(*ast.AssignStmt); ok && as.Pos() > h.after {
 							for _, l := range as.Lhs {
-								if sel, ok := ast.Unparen(l).(*ast.SelectorExpr); ok && selField(info, sel) == f && objOf(info, sel.X) == holder {
-									stored = true
+								if sel, ok := ast.Unparen(l).(*ast.SelectorExpr); ok && selField(info, sel) == f && objOf(info, sel.X) == h.holder {
+									one = true
 								}
 							}
 						}
 						return true
 					})
+					if !one {
+						stored = false
+					}
 				}
 				if !stored {
 					k := fieldKey(lt, f)
@@ -335,6 +450,7 @@ func (p *Program) optionalNodeFields() map[string]string {
 var reviewedOptionalFields = map[string]string{
 	"ProjectColumn.X":      "reviewed: only set when the column is followed by '='",
 	"RenderProperty.Value": "reviewed: kept optional, the traversal already guards it",
+	"JoinOperator.Flavor":  "reviewed: only set when `kind=` is written (documented as not visited by the traversal)",
 }
 
 func ruleC11Use(p *Program, r *Run) {
